@@ -218,13 +218,24 @@ def _r8(ctx, pkg):
         return
     ctx.saw("naunet/component.py", "Component._create_species")
     arg = fn.args.args[1].arg if len(fn.args.args) > 1 else None
-    ok = False
-    found = ""
-    for n in ast.walk(fn):
-        if isinstance(n, ast.If) and re.fullmatch(rf"isinstance\({arg}, Species\)", ast.unparse(n.test)):
-            rets = [r for r in n.body if isinstance(r, ast.Return)]
-            found = ast.unparse(rets[0].value) if rets else "no return"
-            ok = len(n.body) == 1 and bool(rets) and isinstance(rets[0].value, ast.Name) and rets[0].value.id == arg
+    # by facts, whatever the control flow (guard clause, if/else, conditional expression): on every path where the argument IS
+    # a Species instance the method returns the argument itself
+    from ..valueflow import guards_satisfiable, peval
+    INST = ("call", ("global", "isinstance"), (("param", arg), ("global", "Species")), ())
+
+    def _priv(name):
+        return pkg.resolve("Component", name)[1] if name.startswith("_") and not name.startswith("__") and name != "_create_species" else None
+    rets = [f for f in Flow(fn, "naunet/component.py", resolver=_priv).facts if f.kind == "return"]
+    on_inst = []
+    for f in rets:
+        gs = [(simp(c), p_) for gd in f.guards for c, p_ in split_guard(gd)]
+        if not guards_satisfiable(gs, [(INST, True)]):
+            continue                          # this return is not reached with a Species instance
+        v = simp(peval(simp(f.value), {INST: True})) if f.value is not None else ("const", None)
+        on_inst.append(v)
+    tested = any(x == INST for f in rets for gd in f.guards for x in walk(simp(gd[0]))) or any(x == INST for f in rets if f.value is not None for x in walk(simp(f.value)))
+    ok = bool(on_inst) and tested and all(v == ("param", arg) for v in on_inst)
+    found = "; ".join(show(v)[:50] for v in on_inst) or "no return"
     ctx.check(ok, "R8", "Component._create_species:instance kept", ("naunet/component.py", fn.lineno),
               "a Species instance handed in is the instance stored" if ok else
               "a Species instance handed in is replaced by a copy / re-parse: values set on the object (explicit binding energy, photodesorption yield, custom alias) are lost and "
@@ -335,7 +346,8 @@ def _r6(ctx):
     n = 0
     for rel, need_value in ((CONST_C, True), (CONST_H, False)):
         ctx.saw(rel)
-        loops = [it for it, _ in J.walk_items(J.flatten(ctx.tree, rel, {})) if it[0] == "for" and any(x[0] == "text" and x[1].rstrip().endswith("eb_") for x in it[3])]
+        # ({% set %} names and macro parameters read as what they stand for; a loop over `S | map(..)` already iterates S)
+        loops = [it for it, _ in J.walk_items(J.inline_sets(J.flatten(ctx.tree, rel, {}))) if it[0] == "for" and any(x[0] == "text" and x[1].rstrip().endswith("eb_") for x in it[3])]
         if len(loops) != 1:
             ctx.missing("R6", f"{rel}:eb_ loop", (rel, 0), f"expected one loop emitting eb_<alias>, found {len(loops)}")
             continue
@@ -707,6 +719,7 @@ MUTANTS = [
     {"name": "base-validation-helper-wrong-type", "edits": [
         {"file": GR, "old": "        if reac.reaction_type != ReactionType.GRAIN_FREEZE:\n            raise ValueError(\"The reaction type is not depletion\")\n", "new": "        self._expect_type(reac, ReactionType.GRAIN_DESORB_THERMAL, \"depletion\")\n"},
         {"file": GR, "old": "    def rate_depletion(self, reac: Reaction) -> str:\n", "new": "    def _expect_type(self, reaction, wanted, what):\n        if reaction.reaction_type != wanted:\n            raise ValueError(f\"The reaction type is not {what}\")\n\n    def rate_depletion(self, reac: Reaction) -> str:\n", "count": 1}], "rules": ["R1"]},
+    {"name": "create-species-reparses-instances-by-name", "file": "naunet/component.py", "old": '        if isinstance(species_name, Species):\n            return species_name\n\n        if species_name and species_name not in Species.known_pseudoelements():\n            return Species(species_name, **kwargs)\n\n        return None\n', "new": "        if isinstance(species_name, Species):\n            species_name = species_name.name\n        if species_name and species_name not in Species.known_pseudoelements():\n            return Species(species_name, **kwargs)\n\n        return None\n", "rules": ["R8"]},
 ]
 BENIGN = [
     {"name": "binding-energy-guard-clauses", "file": SPECIES, "old": _EB_CHAIN,
@@ -734,6 +747,8 @@ BENIGN = [
         {"file": GR, "old": "        if reac.reaction_type != ReactionType.GRAIN_FREEZE:\n            raise ValueError(\"The reaction type is not depletion\")\n", "new": "        self._expect_type(reac, ReactionType.GRAIN_FREEZE, \"depletion\")\n"},
         {"file": GR, "old": "    def rate_depletion(self, reac: Reaction) -> str:\n", "new": "    def _expect_type(self, reaction, wanted, what):\n        if reaction.reaction_type != wanted:\n            raise ValueError(f\"The reaction type is not {what}\")\n\n    def rate_depletion(self, reac: Reaction) -> str:\n", "count": 1}]},
     {"name": "super-call-explicit-base", "file": RR, "old": "    def rate_h2_desorption(self, reac: Reaction) -> str:\n        super().rate_h2_desorption(reac)\n", "new": "    def rate_h2_desorption(self, reac: Reaction) -> str:\n        Grain.rate_h2_desorption(self, reac)\n"},
+    {"name": "create-species-if-else", "file": "naunet/component.py", "old": '        if isinstance(species_name, Species):\n            return species_name\n\n        if species_name and species_name not in Species.known_pseudoelements():\n            return Species(species_name, **kwargs)\n\n        return None\n', "new": "        if not isinstance(species_name, Species):\n            if species_name and species_name not in Species.known_pseudoelements():\n                return Species(species_name, **kwargs)\n            return None\n        return species_name\n"},
+    {"name": "eb-const-name-through-set", "file": CONST_C, "old": "double eb_{{ s.alias }}", "new": "{% set ice = s.alias -%}\ndouble eb_{{ ice }}", "count": 1},
 ]
 
 
